@@ -6,6 +6,7 @@ package main
 
 import (
 	"fmt"
+	"go/token"
 	"go/types"
 
 	"golang.org/x/tools/go/ssa"
@@ -237,4 +238,172 @@ func (c *Ctx) rulesC02x(a *coreAnchors) {
 				fmt.Sprintf("must run for every auto transition (guards IsAuto && !IsCheck only, before setActiveStates); extra condition: %q, guards=%v", other, guardStrings(gs)))
 		}
 	}
+}
+
+// rulesC02grow: relation closures iterate to a fixed point.
+func (c *Ctx) rulesC02grow() {
+	c.rule("C02.grow", "a relation closure never uses a range loop over the very slice it appends to inside the loop body as its only iteration: range evaluates its operand once, so elements appended during the walk (states required by required states) are never visited and the closure stays one level deep. Checked for every function of pkg/machine and pkg/rpc that reads State.Require / State.Add; NetworkMachine.activateRequired must be recursive or re-evaluate its bound")
+	fReq := c.field(pm, "State", "Require")
+	fAdd := c.field(pm, "State", "Add")
+	if fReq == nil || fAdd == nil {
+		return
+	}
+	n := 0
+	for _, f := range c.Funcs {
+		if topFunc(f).Pkg == nil {
+			continue
+		}
+		rp := relPkg(topFunc(f).Pkg.Pkg.Path())
+		if rp != pm && rp != prpc {
+			continue
+		}
+		reads := len(readsOfFieldIn(f, fReq))+len(readsOfFieldIn(f, fAdd)) > 0
+		if !reads {
+			continue
+		}
+		n++
+		// range loops: IndexAddr(X, rangeindex+1)
+		for _, b := range f.Blocks {
+			for _, ins := range b.Instrs {
+				ia, ok := ins.(*ssa.IndexAddr)
+				if !ok {
+					continue
+				}
+				bo, ok := ia.Index.(*ssa.BinOp)
+				if !ok {
+					continue
+				}
+				ph, ok := bo.X.(*ssa.Phi)
+				if !ok || ph.Comment != "rangeindex" {
+					continue
+				}
+				header := ph.Block()
+				// appends in the loop body whose first arg aliases the ranged slice and whose result is
+				// stored back to the same variable
+				for _, b2 := range f.Blocks {
+					if !(header.Dominates(b2) && blockReach(b2)[header]) {
+						continue
+					}
+					for _, in2 := range b2.Instrs {
+						call, ok := in2.(*ssa.Call)
+						if !ok {
+							continue
+						}
+						bi, ok := call.Call.Value.(*ssa.Builtin)
+						if !ok || bi.Name() != "append" {
+							continue
+						}
+						// the grown slice is ranged again when the append result flows back into the
+						// ranged operand through an enclosing loop (for changed { for range ret { ret = append(ret, ..) } })
+						if sameSliceVar(call.Call.Args[0], ia.X) && !sameSliceVar(ia.X, call) {
+							c.fail("C02.grow", funcKey(f)+": closure loop re-visits appended elements", in2.Pos(),
+								"the loop ranges over "+render(ia.X)+" and appends to it in the body: range evaluated the slice once, the appended states are never expanded (closure one level deep)")
+						}
+					}
+				}
+			}
+		}
+		c.ok("C02.grow", funcKey(f)+": no range-over-growing-slice", f.Pos(), "scan of range loops and appends")
+	}
+	if n < 3 {
+		c.undecided(fmt.Sprintf("C02.grow: only %d functions read State.Require/Add", n))
+	}
+	// activateRequired is transitive
+	ar := c.fn(prpc + ":NetworkMachine.activateRequired")
+	if ar == nil {
+		return
+	}
+	rec := false
+	var visit func(f *ssa.Function)
+	visit = func(f *ssa.Function) {
+		for _, a := range f.AnonFuncs {
+			visit(a)
+		}
+		for _, b := range f.Blocks {
+			for _, ins := range b.Instrs {
+				ci, ok := ins.(ssa.CallInstruction)
+				if !ok {
+					continue
+				}
+				cc := ci.Common()
+				if sc := cc.StaticCallee(); sc != nil && (sc == f || sc == ar) {
+					rec = true
+				}
+				// call of a captured func variable holding the closure itself
+				if u, ok := cc.Value.(*ssa.UnOp); ok && f.Parent() != nil {
+					if fv, ok := u.X.(*ssa.FreeVar); ok {
+						if _, isSig := fv.Type().(*types.Pointer).Elem().Underlying().(*types.Signature); isSig {
+							rec = true
+						}
+					}
+				}
+				// a loop whose bound is len() re-evaluated in the header
+			}
+		}
+	}
+	visit(ar)
+	if !rec {
+		// index loop with len() in the header block of a loop
+		for _, b := range ar.Blocks {
+			if !blockReach(b)[b] {
+				continue
+			}
+			for _, ins := range b.Instrs {
+				if call, ok := ins.(*ssa.Call); ok {
+					if bi, ok := call.Call.Value.(*ssa.Builtin); ok && bi.Name() == "len" {
+						rec = true
+					}
+				}
+			}
+		}
+	}
+	c.check(rec, "C02.grow", "NetworkMachine.activateRequired iterates to a fixed point", ar.Pos(), "neither recursion nor a loop with a re-evaluated bound found: Require chains longer than one are not followed on the mirror")
+}
+
+// sameSliceVar: a and b are the same SSA value, or loads of / phis over the
+// same local variable.
+func sameSliceVar(a, b ssa.Value) bool {
+	if a == b {
+		return true
+	}
+	root := func(v ssa.Value) ssa.Value {
+		if u, ok := v.(*ssa.UnOp); ok && u.Op == token.MUL {
+			return u.X
+		}
+		return v
+	}
+	if ra, rb := root(a), root(b); ra == rb {
+		if _, ok := ra.(*ssa.Alloc); ok {
+			return true
+		}
+		if _, ok := ra.(*ssa.FreeVar); ok {
+			return true
+		}
+	}
+	// b is the value before the loop, a is a phi (chain) in the loop merging b with append results
+	seen := map[ssa.Value]bool{}
+	var walk func(v ssa.Value) bool
+	walk = func(v ssa.Value) bool {
+		if v == b {
+			return true
+		}
+		if seen[v] {
+			return false
+		}
+		seen[v] = true
+		switch x := v.(type) {
+		case *ssa.Phi:
+			for _, e := range x.Edges {
+				if walk(e) {
+					return true
+				}
+			}
+		case *ssa.Call:
+			if bi, ok := x.Call.Value.(*ssa.Builtin); ok && bi.Name() == "append" {
+				return walk(x.Call.Args[0])
+			}
+		}
+		return false
+	}
+	return walk(a)
 }
